@@ -172,7 +172,7 @@ def run(rep, tier, seed):
     work = tlc.scratch_dir("c14_")
     try:
         # (b) handler tables
-        ctrait_tables.run_binding(rep, work)
+        ctrait_tables.run_binding_isolated(rep, work)
         # (a) object histories continuing on copies
         ntr, steps = (1500, 18) if tier == "quick" else (25000, 30)
         trace = os.path.join(work, "trace.ndjson")
